@@ -92,13 +92,15 @@ def dict_depth(d: dict) -> int:
         int: depth
     """
     try:
-        return 1 + dict_depth(next(iter(d.values())))
+        values = list(d.values())
     except AttributeError:
         # d doesn't have attribute "values"
         return 0
-    except StopIteration:
-        # d.values() returns an empty sequence
+    if not values:
         return 1
+    # The deepest branch decides: an empty first entry (e.g. a database without tables)
+    # must not make the rest of the mapping look shallower than it is
+    return 1 + max(dict_depth(v) for v in values)
 
 
 async def aiterate(iterable: AsyncIterable[T] | Iterable[T]) -> AsyncIterator[T]:
